@@ -456,6 +456,78 @@ theorem action_spec {st : Store} (sink : List SinkEv) (ms pubs : List Cmd) (hs :
             simp only [cmds_append] at h1 h2 ⊢
             exact h1.trans h2
 
+/-! ## new_graph -/
+
+theorem chain_tail_parents {b : List Nat} {c : Cmd} {cs : Graph} (h : Chain b (c :: cs)) :
+    ∀ x ∈ cs, ∃ y, x.parents = [y] := by
+  intro x hx
+  rcases chain_parents h.2 x hx with e | e
+  · exact ⟨c.id, e⟩
+  · exact e
+
+/-- `new_graph`: either it fails and the store is exactly what it was, or there was no store and the
+new one holds exactly the published commands — the first is the parentless command whose id is the
+graph id, every other one has exactly one parent — with the last published command as single head -/
+theorem newGraph_spec (gid : Nat) (store : Option Store) (sink : List SinkEv) (pubs : List Cmd) :
+    (∃ e sink', newGraph gid store sink pubs = (store, sink', .error e)) ∨
+    (store = none ∧ ∃ st' c0 rest last sink', pubs = c0 :: rest ∧ c0.id = gid ∧ c0.parents = [] ∧
+      newGraph gid store sink pubs = (some st', sink', .ok ()) ∧ cmds st'.graph = pubs ∧
+      st'.graph.getLast? = some last ∧ st'.heads = [last.cmd.id] ∧ st'.stamp = 0 ∧ st'.facts = last.st ∧
+      StoreInv st' ∧ (∀ x ∈ (cmds st'.graph).tail, ∃ y, x.parents = [y])) := by
+  unfold newGraph
+  cases pubs with
+  | nil => exact Or.inl ⟨_, _, rfl⟩
+  | cons c0 rest =>
+    simp only
+    by_cases hcond : c0.parents ≠ [] ∨ c0.id ≠ gid
+    · rw [if_pos hcond]; exact Or.inl ⟨_, _, rfl⟩
+    · rw [if_neg hcond]
+      simp only [not_or, ne_eq, Decidable.not_not] at hcond
+      obtain ⟨hpar, hid⟩ := hcond
+      by_cases hr : (rule c0 {}).2.1 = true
+      · rw [if_pos hr]
+        rcases hp : publish [] rest c0.id (rule c0 {}).1 [⟨c0, (rule c0 {}).1⟩] (consumes c0.id (rule c0 {}).2.2) with ⟨evs, r⟩
+        cases r with
+        | error e =>
+          rcases publish_err _ _ _ _ _ _ _ _ hp with rfl | rfl
+          · exact Or.inl ⟨_, _, rfl⟩
+          · exact Or.inl ⟨_, _, rfl⟩
+        | ok ns =>
+          obtain ⟨new, s'⟩ := ns
+          simp only
+          cases store with
+          | some st => exact Or.inl ⟨_, _, rfl⟩
+          | none =>
+            simp only
+            cases hl : new.getLast? with
+            | none => exact Or.inl ⟨_, _, rfl⟩
+            | some last =>
+              right
+              have hw0 : WF (cmds ([] ++ [(⟨c0, (rule c0 {}).1⟩ : SCmd)])) := by
+                have := WF.snoc (c := c0) WF.nil (by simp [ids]) (by simp [hpar]) (by simp [hpar]) (by simp [hpar])
+                simpa using this
+              obtain ⟨r1, r2, r3, ⟨more, rfl⟩, _, r6⟩ := publish_spec [] [] rest c0.id (rule c0 {}).1
+                [⟨c0, (rule c0 {}).1⟩] _ evs new s' hw0 (by simp [ids, cmds]) (by simp [Chain, hpar]) (by simp) (by simp) hp
+              refine ⟨(by first | rfl | trivial), _, c0, rest, last, _, (by first | rfl | trivial), hid, hpar, (by first | rfl | trivial), by simpa using r3, hl, (by first | rfl | trivial), (by first | rfl | trivial), (r6 last hl).symm, ?_, ?_⟩
+              · refine ⟨by simpa using r1, ?_, by simp, by simp⟩
+                intro i
+                simp only [List.mem_singleton]
+                have hw' : WF (([] : Graph) ++ cmds ([⟨c0, (rule c0 {}).1⟩] ++ more)) := by simpa using r1
+                have := isTip_chain hw' r2 (getLast?_cmds hl) i
+                simp only [List.nil_append] at this
+                rw [this]
+                simp [IsTip, ids]
+              · intro x hx
+                have hc : Chain [] (c0 :: cmds more) := by simpa using r2
+                exact chain_tail_parents hc x (by simpa using hx)
+      · rw [if_neg hr]; exact Or.inl ⟨_, _, rfl⟩
+
+theorem newGraph_some (gid : Nat) (st : Store) (sink : List SinkEv) (pubs : List Cmd) :
+    (newGraph gid (some st) sink pubs).1 = some st ∧ ∃ e, (newGraph gid (some st) sink pubs).2.2 = .error e := by
+  rcases newGraph_spec gid (some st) sink pubs with ⟨e, sink', h⟩ | ⟨h, _⟩
+  · rw [h]; exact ⟨rfl, e, rfl⟩
+  · cases h
+
 /-! ## the client LTS -/
 
 theorem mem_dropSlot {l : List (Nat × Trx)} {s : Nat} {x : Nat × Trx} (h : x ∈ dropSlot l s) : x ∈ l :=
@@ -636,6 +708,18 @@ theorem step_inv {cl : Client} (h : ClientInv cl) (op : Op) : ClientInv (step cl
         have := h.trxs s' t' hm'
         rw [hst] at this
         exact this.bump hstamp
+  | newGraph pubs =>
+    simp only [step]
+    rcases newGraph_spec cl.gid cl.store cl.sink pubs with ⟨e, sink', hc⟩ | ⟨hnone, st', _, _, _, sink', _, _, _, hc, _, _, _, _, _, hinv, _⟩
+    · rw [hc]; exact ⟨h.store, h.trxs⟩
+    · rw [hc]
+      refine ⟨by intro st'' e'; simp only at e'; injection e' with e'; subst e'; exact hinv, ?_⟩
+      intro s' t' hm'
+      have := h.trxs s' t' hm'
+      rw [hnone] at this
+      simp only at this ⊢
+      subst this
+      exact TrxOK.fresh st'
 
 theorem run_inv {cl : Client} (h : ClientInv cl) (ops : List Op) : ClientInv (run cl ops) := by
   induction ops generalizing cl with
@@ -710,6 +794,9 @@ theorem step_graph_prefix {cl : Client} (h : ClientInv cl) (op : Op) {st : Store
     rcases action_spec cl.sink ms pubs hs with ⟨e, evs, hc, _⟩ | ⟨st', merges, new, last, evs, hc, _, hgr, _, _, _, _, _, hstamp, _, _⟩
     · exact ⟨st, [], by rw [hc], by simp, Or.inl rfl⟩
     · exact ⟨st', merges ++ new, by rw [hc], by rw [hgr, List.append_assoc], Or.inr hstamp⟩
+  | newGraph pubs =>
+    simp only [step, hst]
+    exact ⟨st, [], (newGraph_some cl.gid st cl.sink pubs).1, by simp, Or.inl rfl⟩
 
 theorem run_graph_prefix {cl : Client} (h : ClientInv cl) (ops : List Op) {st : Store} (hst : cl.store = some st) :
     ∃ st' extra, (run cl ops).store = some st' ∧ st'.graph = st.graph ++ extra ∧ st.stamp ≤ st'.stamp ∧
